@@ -188,6 +188,9 @@ func (s *Scheduler) dispatchTask(ctx context.Context, next def.Task, isRetry boo
 		},
 	)
 	if dispatchErr != nil {
+		// The timer event that announced next is consumed, and the failed attempt may have changed
+		// the repository without the timer being updated. Let the next Step restart the timer.
+		s.getNextErr = dispatchErr
 		return StateDispatchErr(next, dispatchErr)
 	}
 
